@@ -190,6 +190,9 @@ PREFIXED = {
     "big64": (_BIG, _BIG, 1, 1), "big64_2": (_BIG, _BIG, 2, 2), "big_vs_bigger": (b"9" * 20, b"9" * 20, 1, 1), "zeros": (b"000", b"0", 2, 2),
     "dot_big": (b"1." + _BIG, b"1." + _BIG, 2, 2), "alpha_long": (b"abcdefghijklmnopqrstuvwxyz", b"abcdefghijklmnopqrstuvwxyz", 1, 2), "tilde": (b"1.0~", b"1.0", 2, 2),
     "caret": (b"1.0^", b"1.0", 2, 2), "sep_runs": (b"1...", b"1.", 2, 2),
+    # a literal non-ASCII character (two UTF-8 bytes) among the segments: rpm treats every non-alphanumeric byte as a separator
+    "nonascii_sep": ("1\u00e9".encode(), b"1", 2, 2), "nonascii_lead": ("\u00e9".encode(), b"", 2, 2), "nonascii_mid": ("a\u00e9".encode(), b"a.", 1, 2),
+    "nonascii_both": ("1\u00e9".encode(), "1\u00e9".encode(), 1, 2),
 }
 for _k, _v in PREFIXED.items():
     HARNESSES["c13_prefixed_" + _k] = (lambda v: (lambda ctx: c13_prefixed(ctx, *v)))(_v)
